@@ -60,6 +60,22 @@ impl ClientDoc {
         }
     }
 
+    /// LSP 3.17: a column greater than the line length "defaults back to the line length".
+    /// The canonical position a client's position stands for (None: no such line, or inside a surrogate pair).
+    pub fn canonical(&self, p: Pos) -> Option<Pos> {
+        if self.offset_of(p).is_some() {
+            return Some(p);
+        }
+        let lines = self.lines();
+        let (_, e) = *lines.get(p.line as usize)?;
+        let end = self.pos_of(e)?;
+        if p.col > end.col {
+            Some(end)
+        } else {
+            None
+        }
+    }
+
     /// All valid positions with their byte offsets, in document order.
     pub fn positions(&self) -> Vec<(Pos, usize)> {
         let mut out = vec![];
